@@ -28,7 +28,7 @@ ASSUMPTIONS = ["an exception raised at a call boundary stands for any failure at
                "temp files are not output files: they may exist under the run's private TMPDIR"]
 REAL_VS_STUB = {"real": ["gen_params, gen_seq, gen_coords end to end, vermouth DeferredFileWriter, real file system"],
                 "stub": ["tqdm disabled", "sys.argv pinned", "sys.settrace crash injector"]}
-PROBES = ["backups_without_output_file", "publishing_move_fails_once", "output_path_is_symlink", "publish_across_filesystems", "relative_output_path", "crash_between_open_and_write", "existing_file", "existing_backups", "later_success_other_path",
+PROBES = ["gmx_maxbackup_minus_one", "backups_without_output_file", "publishing_move_fails_once", "output_path_is_symlink", "publish_across_filesystems", "relative_output_path", "crash_between_open_and_write", "existing_file", "existing_backups", "later_success_other_path",
           "natural_failure", "prog_gen_params", "prog_gen_seq", "prog_gen_coords", "success_backup_checked"]
 EXHAUSTIVE = {}
 
@@ -262,7 +262,10 @@ def run_job(job):
     h = hashlib.sha256()
     fired = 0
     for k in ks:
-        hist = {"ops": [dict(op, crash_at=k, snapshot_at_crash=True)] + job["follow"], "roundtrip": False}
+        # every other crash point raises an ordinary Exception instead of a BaseException (both kinds of handler in
+        # the code under test are then exercised)
+        hist = {"ops": [dict(op, crash_at=k, snapshot_at_crash=True, crash_exc="ordinary" if k % 2 else "base")]
+                + job["follow"], "roundtrip": False}
         res = zygotes.run_history(hs, hist, timeout=300)
         r = res["ops"][0]
         evals += 1
@@ -317,6 +320,19 @@ def run_job(job):
             for clause, msg, facts in _check_success(job, pre_map, r):
                 if not any(v["clause"] == clause for v in viols):
                     viols.append({"property": PROP, "clause": clause, "msg": "[exdev] " + msg, "seq": 0, "facts": facts})
+    # ---- environment: GMX_MAXBACKUP=-1 (GROMACS' switch for "no backups") must not make polyply drop the previous file
+    if job["prog"] in ("gen_params", "gen_coords") and op["out"] in pre_map:
+        res = zygotes.run_history(hs, {"ops": [dict(op, env={"GMX_MAXBACKUP": "-1"})], "roundtrip": False}, timeout=300)
+        r = res["ops"][0]
+        evals += 1
+        probes["gmx_maxbackup_minus_one"] = 1
+        if r["status"] == "ok":
+            for clause, msg, facts in _check_success(job, pre_map, r):
+                if not any(v["clause"] == clause for v in viols):
+                    viols.append({"property": PROP, "clause": clause, "msg": "[GMX_MAXBACKUP=-1] " + msg, "seq": 0, "facts": facts})
+        else:
+            viols.append({"property": PROP, "clause": "success.incomplete", "seq": 0, "facts": {"env": True},
+                          "msg": f"{job['prog']} fails with GMX_MAXBACKUP=-1 in the environment: {r.get('error')}"})
     # ---- the publishing move itself fails once (transient OSError): a failure DURING writing is outside the failure
     # clause ("before writing"), so a failed call is judged only through what later calls publish; a call that returns
     # normally (e.g. after a retry) must have put the complete file in place
